@@ -129,7 +129,9 @@ def parse(text, tk=None, timeout=5, want_events=False):
     except Watchdog:
         r = ("EXC", "Watchdog", "", _HANG["where"])
     except Exception as ex:  # pylint: disable=broad-except
-        c = ex.__cause__ or ex
+        c = ex
+        while c.__cause__ is not None:
+            c = c.__cause__
         import traceback
         where = ""
         tb = [f for f in traceback.extract_tb(c.__traceback__) if "/pymarkdown/" in f.filename]
